@@ -1262,8 +1262,22 @@ func (m *SessionModel) Method(name string) *ssa.Function {
 			return m.Pkg.Prog.MethodValue(ms.At(i))
 		}
 	}
-	return FindPinned(m.Pkg, "Session", name) // renamed
+	if f := FindPinned(m.Pkg, "Session", name); f != nil { // renamed
+		return f
+	}
+	if w, ok := InlinedInto["Session."+name]; ok { // inlined into its exported wrapper
+		for i := 0; i < ms.Len(); i++ {
+			if "Session."+ms.At(i).Obj().Name() == w {
+				return m.Pkg.Prog.MethodValue(ms.At(i))
+			}
+		}
+	}
+	return nil
 }
+
+// InlinedInto lists unexported methods of the pinned tree whose body may legitimately move into the exported wrapper that was
+// their only other caller's alternative: the rules about the method then apply to the wrapper.
+var InlinedInto = map[string]string{"Session.send": "Session.Send"}
 
 // MsgTypeKeyOfBuilder: v is a load of MessageBuilders.<K>Builder → K.
 func (m *SessionModel) MsgTypeKeyOfBuilder(v ssa.Value) string {
